@@ -7,6 +7,7 @@ import (
 	"fmt"
 	"os"
 	"sort"
+	"strings"
 	"time"
 
 	"github.com/sarchlab/akita/v4/sim"
@@ -43,23 +44,24 @@ import (
 // and only a later phase that depends on an earlier one can see that.
 
 type histStep struct {
-	Kind   string  `json:"k"`                 // "h2d" | "d2h" | "gather" | "inplace" | "d2d"
-	Buf    int     `json:"buf"`               // buffer written (h2d, kernels) / read back (d2h)
-	Off    int     `json:"off"`               // first element of the written / read-back range
-	N      int     `json:"n"`                 // elements (kernels: grid size, any value, partial last work-group allowed)
-	Src    int     `json:"src,omitempty"`     // gather, d2d: source buffer
-	SrcOff int     `json:"src_off,omitempty"` // gather, d2d: first element of the source window
-	Mask   uint32  `json:"mask,omitempty"`    // gather: dst[Off+g] = op(src[SrcOff+(g&Mask)], C)
-	Op     kern.Op `json:"op"`
-	C      uint32  `json:"c,omitempty"`
-	Site   int     `json:"site"`            // abstract launch site (kernels); queue of a copy issued through a queue
-	ViaQ   bool    `json:"via_q,omitempty"` // copies: through the launch site's command queue instead of the blocking API call
-	Data   uint64  `json:"data,omitempty"`  // h2d: PRNG seed of the uploaded data
-	Cut    int     `json:"cut,omitempty"`   // d2d: byte count is 4*N-Cut (0..3), the kernel copies ceil(bytes/4) dwords
+	Kind   string    `json:"k"`                 // "h2d" | "d2h" | "gather" | "inplace" | "geom" | "d2d"
+	Buf    int       `json:"buf"`               // buffer written (h2d, kernels) / read back (d2h)
+	Off    int       `json:"off"`               // first element of the written / read-back range
+	N      int       `json:"n"`                 // elements (kernels: grid size, any value, partial last work-group allowed)
+	Src    int       `json:"src,omitempty"`     // gather, d2d: source buffer
+	SrcOff int       `json:"src_off,omitempty"` // gather, d2d: first element of the source window
+	Mask   uint32    `json:"mask,omitempty"`    // gather: dst[Off+g] = op(src[SrcOff+(g&Mask)], C)
+	Op     kern.Op   `json:"op"`
+	C      uint32    `json:"c,omitempty"`
+	Site   int       `json:"site"`            // abstract launch site (kernels); queue of a copy issued through a queue
+	ViaQ   bool      `json:"via_q,omitempty"` // copies: through the launch site's command queue instead of the blocking API call
+	Data   uint64    `json:"data,omitempty"`  // h2d: PRNG seed of the uploaded data
+	Cut    int       `json:"cut,omitempty"`   // d2d: byte count is 4*N-Cut (0..3), the kernel copies ceil(bytes/4) dwords
+	Geo    *geometry `json:"geo,omitempty"`   // geom: in-place geomKernel over elements [Off, Off+N), N = product of the grid
 }
 
 func (s histStep) isKernel() bool {
-	return s.Kind == "gather" || s.Kind == "inplace" || s.Kind == "d2d"
+	return s.Kind == "gather" || s.Kind == "inplace" || s.Kind == "d2d" || s.Kind == "geom"
 }
 
 type histProgram struct {
@@ -82,6 +84,20 @@ type histPlacement struct {
 	RemapSeed uint64 `json:"remap_seed,omitempty"` // plain: every page remapped to a PRNG-chosen GPU
 	QueuesUp  bool   `json:"queues_up,omitempty"`  // create all queues first and never re-select a GPU (what the shipped multi-GPU benchmarks do: code / kernarg memory of every launch lives on the last selected GPU)
 	ShareCO   bool   `json:"share_co,omitempty"`   // one code object per kernel kind for all queues (uploaded once, fetched remotely by the other GPUs)
+	HostSplit bool   `json:"host_split,omitempty"` // plain: launches with a geometry are split by the host into slabs of work-groups, one per distinct GPU of Sites
+}
+
+// splitGPUs are the distinct GPUs of Sites, in order of first appearance.
+func (pl histPlacement) splitGPUs() []int {
+	var out []int
+	seen := map[int]bool{}
+	for _, g := range pl.Sites {
+		if !seen[g] {
+			seen[g] = true
+			out = append(out, g)
+		}
+	}
+	return out
 }
 
 func histPlacements(timing, thorough bool) []histPlacement {
@@ -89,14 +105,15 @@ func histPlacements(timing, thorough bool) []histPlacement {
 		{Name: "1gpu", Class: "single-gpu", NumGPUs: 1, Sites: []int{1}, BufGPU: []int{1}},
 		{Name: "all-on-gpu2-of-2", Class: "local-buffers", NumGPUs: 2, Sites: []int{2}, BufGPU: []int{2}},
 		{Name: "buffers-on-gpu2-launch-on-gpu1", Class: "remote-buffers", NumGPUs: 2, Sites: []int{1}, BufGPU: []int{2}},
-		{Name: "distributed-1-2-launch-on-1-2", Class: "distributed-buffers", NumGPUs: 2, Sites: []int{1, 2}, BufGPU: []int{1}, Spread: []int{1, 2}, QueuesUp: true, ShareCO: true},
+		{Name: "distributed-1-2-launch-on-1-2", Class: "distributed-buffers", NumGPUs: 2, Sites: []int{1, 2}, BufGPU: []int{1}, Spread: []int{1, 2}, QueuesUp: true, ShareCO: true, HostSplit: true},
 		{Name: "unified-1-2", Class: "unified", NumGPUs: 2, Unified: []int{1, 2}},
+		{Name: "unified-1-2-3", Class: "unified", NumGPUs: 3, Unified: []int{1, 2, 3}},
 	}
 	if !timing || thorough {
 		ps = append(ps,
 			histPlacement{Name: "buffers-remapped-to-gpu2-launch-on-gpu1", Class: "remote-buffers", NumGPUs: 2, Sites: []int{1}, BufGPU: []int{1}, RemapTo: 2},
 			histPlacement{Name: "distributed-2-3-launch-on-1-4", Class: "remote-buffers", NumGPUs: 4, Sites: []int{1, 4}, BufGPU: []int{1}, Spread: []int{2, 3}},
-			histPlacement{Name: "distributed-1-2-3-4-launch-on-4-1-3", Class: "distributed-buffers", NumGPUs: 4, Sites: []int{4, 1, 3}, BufGPU: []int{2}, Spread: []int{1, 2, 3, 4}, QueuesUp: true, ShareCO: true},
+			histPlacement{Name: "distributed-1-2-3-4-launch-on-4-1-3", Class: "distributed-buffers", NumGPUs: 4, Sites: []int{4, 1, 3}, BufGPU: []int{2}, Spread: []int{1, 2, 3, 4}, QueuesUp: true, ShareCO: true, HostSplit: true},
 			histPlacement{Name: "pages-remapped-over-4-launch-on-1-2-3-4", Class: "remapped-pages", NumGPUs: 4, Sites: []int{1, 2, 3, 4}, BufGPU: []int{1, 3}, RemapSeed: 0x9e3779b97f4a7c15},
 			histPlacement{Name: "unified-1-2-3-4", Class: "unified", NumGPUs: 4, Unified: []int{1, 2, 3, 4}},
 			histPlacement{Name: "unified-2-3-of-4", Class: "unified", NumGPUs: 4, Unified: []int{2, 3}},
@@ -233,7 +250,7 @@ func (s histStep) apply(x uint32) uint32 {
 // srcIndex is the element of the source buffer work-item g of a kernel reads.
 func (s histStep) srcIndex(g int) int {
 	switch s.Kind {
-	case "inplace":
+	case "inplace", "geom":
 		return s.Off + g
 	case "gather":
 		return s.SrcOff + int(uint32(g)&s.Mask)
@@ -243,7 +260,7 @@ func (s histStep) srcIndex(g int) int {
 }
 
 func (s histStep) srcBuf() int {
-	if s.Kind == "inplace" {
+	if s.Kind == "inplace" || s.Kind == "geom" {
 		return s.Buf
 	}
 	return s.Src
@@ -341,6 +358,9 @@ func (sh *histShadow) classify(d2hStep, elem int, got uint32) (class, detail str
 					w, ws.Kind, ws.Site, se, ws.srcBuf(), writers[k-1], kind, missed.Kind, k)
 			}
 		}
+		if (ws.Kind == "inplace" || ws.Kind == "geom") && len(vals) > 0 && ws.apply(ws.apply(vals[0])) == got && ws.apply(vals[0]) != got {
+			return "element-processed-twice", fmt.Sprintf("the value is what results when the work-item of kernel step %d (%s) that owns the element runs twice", w, ws.Kind)
+		}
 		for k := 1; k < len(own); k++ {
 			if own[k] == got {
 				return "kernel-write-not-visible", fmt.Sprintf("the value is the element's content before step %d (%s): the write of kernel step %d is missing in the read-back", ownW[k-1], sh.prog.Steps[ownW[k-1]].Kind, w)
@@ -366,6 +386,7 @@ type histGen struct {
 	kdirty []bool // buffer written by a kernel since the last host copy
 	sites  int
 	maxN   int
+	maxWGs int
 }
 
 func (g *histGen) add(s histStep) { g.p.Steps = append(g.p.Steps, s) }
@@ -468,13 +489,25 @@ func (g *histGen) pickMask(srcSize int) uint32 {
 func (g *histGen) kernel(site int, big bool) histStep {
 	nb := len(g.p.Bufs)
 	st := histStep{Site: site, Op: kern.Op(g.r.Intn(3)), C: 1 + 2*uint32(g.r.Intn(5000))}
-	switch k := g.r.Intn(10); {
+	switch k := g.r.Intn(12); {
 	case k < 2:
 		st.Kind = "inplace"
 		st.Buf = g.r.Intn(nb)
 		size := g.p.Bufs[st.Buf]
 		st.N = g.kernelN(size, big)
 		st.Off = g.r.Intn(size - st.N + 1)
+	case k >= 10:
+		// in-place kernel launched with a 1/2/3-D grid
+		st.Kind = "geom"
+		st.Buf = g.r.Intn(nb)
+		size := g.p.Bufs[st.Buf]
+		if size > g.maxN {
+			size = g.maxN
+		}
+		geo := genGeometry(g.r, size, g.maxWGs)
+		st.Geo = &geo
+		st.N = geo.n()
+		st.Off = g.r.Intn(g.p.Bufs[st.Buf] - st.N + 1)
 	default:
 		st.Kind = "gather"
 		if k < 4 {
@@ -523,7 +556,7 @@ func (g *histGen) kernel(site int, big bool) histStep {
 // srcSpan is the element range of the source buffer a kernel step reads.
 func (s histStep) srcSpan() (lo, hi int) {
 	switch s.Kind {
-	case "inplace":
+	case "inplace", "geom":
 		return s.Off, s.Off + s.N
 	case "gather":
 		span := s.N
@@ -576,7 +609,7 @@ func (g *histGen) motif() {
 	g.h2d(x, lo, hi-lo)
 	k2 := k1
 	k2.Op, k2.C = kern.Op(g.r.Intn(3)), 1+2*uint32(g.r.Intn(5000))
-	if k1.Kind != "inplace" && len(g.p.Bufs) > 2 && g.r.Bool() {
+	if k1.Kind != "inplace" && k1.Kind != "geom" && len(g.p.Bufs) > 2 && g.r.Bool() {
 		// write the second result elsewhere if it fits
 		for _, b := range g.r.Perm(len(g.p.Bufs)) {
 			if b != x && b != k1.Buf && g.p.Bufs[b] >= k1.N {
@@ -597,10 +630,10 @@ func genHistProgram(r *vlib.PRNG, id string, timing bool) histProgram {
 	nb := 2 + r.Intn(2)
 	var pool []int
 	if timing {
-		g.maxN = 8320
+		g.maxN, g.maxWGs = 8320, 450
 		pool = []int{1024, 2048, 3000, 4096, 4096, 4160, 5000, 8256}
 	} else {
-		g.maxN = 20000
+		g.maxN, g.maxWGs = 20000, 1500
 		pool = []int{1, 63, 700, 1024, 1025, 2048, 3000, 4096, 4160, 5000, 8256, 12000, 16385}
 	}
 	for b := 0; b < nb; b++ {
@@ -724,6 +757,25 @@ func canonicalHistPrograms() []histProgram {
 			{Kind: "d2h", Buf: 0, Off: 0, N: 2048},
 		}}
 	}
+	// (4) launch geometry inside a history: 150 x 2 work-groups of 4x4 (a
+	// unified device of three GPUs gets shares of 128 against rows of 150),
+	// the same grid again after a partial re-upload, then a 3-D launch
+	geomHist := func(id string, timing bool) histProgram {
+		g2 := geometry{Grid: [3]int{600, 8, 1}, WG: [3]int{4, 4, 1}} // 4800 elements
+		g3 := geometry{Grid: [3]int{259, 4, 4}, WG: [3]int{4, 2, 2}} // 65 x 2 x 2 work-groups, partial in x; 4144 elements
+		return histProgram{ID: id, Timing: timing, Bufs: []int{5000, 4200}, Steps: []histStep{
+			{Kind: "h2d", Buf: 0, Off: 0, N: 5000, Data: 41},
+			{Kind: "h2d", Buf: 1, Off: 0, N: 4200, Data: 42},
+			{Kind: "geom", Buf: 0, Off: 100, N: g2.n(), Geo: &g2, Op: kern.OpAdd, C: 7, Site: 1},
+			{Kind: "d2h", Buf: 0, Off: 0, N: 5000},
+			{Kind: "h2d", Buf: 0, Off: 1024, N: 2048, Data: 43},
+			{Kind: "geom", Buf: 0, Off: 100, N: g2.n(), Geo: &g2, Op: kern.OpMul, C: 3, Site: 1},
+			{Kind: "d2h", Buf: 0, Off: 0, N: 5000},
+			{Kind: "geom", Buf: 1, Off: 3, N: g3.n(), Geo: &g3, Op: kern.OpAdd, C: 1001, Site: 0},
+			{Kind: "d2h", Buf: 1, Off: 0, N: 4200},
+		}}
+	}
+	ps = append(ps, geomHist("canon-geometry-history-emu", false), geomHist("canon-geometry-history-timing", true))
 	ps = append(ps,
 		reup("canon-reupload-reread-emu", false), d2d("canon-d2d-reupload-emu", false), pagewise("canon-pagewise-reupload-emu", false),
 		reup("canon-reupload-reread-timing", true), d2d("canon-d2d-reupload-timing", true), pagewise("canon-pagewise-reupload-timing", true),
@@ -863,9 +915,12 @@ func histChild() {
 			return co
 		}
 		var co *insts.KernelCodeObject
-		if kind == "inplace" {
+		switch kind {
+		case "inplace":
 			co = kern.ElemKernel(op)
-		} else {
+		case "geom":
+			co = geomKernel(op)
+		default:
 			co = gatherKernel(op)
 		}
 		cos[k] = co
@@ -899,6 +954,37 @@ func histChild() {
 			args := kern.ElemArgs{Buf: at(st.Buf, st.Off), C: st.C}
 			d.EnqueueLaunchKernel(q, coFor(st.Site, st.Kind, st.Op), [3]uint32{uint32(st.N), 1, 1}, [3]uint16{64, 1, 1}, &args)
 			d.DrainCommandQueue(q)
+		case "geom":
+			g := *st.Geo
+			if unified == 0 && pl.HostSplit {
+				// the host splits the grid into slabs of work-groups, one per GPU
+				gpus := pl.splitGPUs()
+				siteOf := func(gpu int) int {
+					for s, x := range pl.Sites {
+						if x == gpu {
+							return s
+						}
+					}
+					panic("harness: gpu without a site")
+				}
+				parts := g.hostSplit(len(gpus))
+				var qs []*driver.CommandQueue
+				for _, part := range parts {
+					site := siteOf(gpus[part.Part])
+					q := queueOf(site)
+					args := g.args(at(st.Buf, st.Off+part.ElemOffset), st.C)
+					d.EnqueueLaunchKernel(q, coFor(site, st.Kind, st.Op), u32x3(part.Grid), u16x3(g.WG), &args)
+					qs = append(qs, q)
+				}
+				for _, q := range qs {
+					d.DrainCommandQueue(q)
+				}
+			} else {
+				q := queueOf(st.Site)
+				args := g.args(at(st.Buf, st.Off), st.C)
+				d.EnqueueLaunchKernel(q, coFor(st.Site, st.Kind, st.Op), u32x3(g.Grid), u16x3(g.WG), &args)
+				d.DrainCommandQueue(q)
+			}
 		case "gather":
 			q := queueOf(st.Site)
 			args := GatherArgs{Src: at(st.Src, st.SrcOff), Dst: at(st.Buf, st.Off), C: st.C, Mask: st.Mask}
@@ -931,6 +1017,17 @@ type histJob struct {
 
 // readerGPU is the GPU that executes work-item g of a kernel step.
 func readerGPU(pl histPlacement, st histStep, g int) int {
+	if st.Kind == "geom" {
+		geo := *st.Geo
+		if len(pl.Unified) > 0 {
+			return pl.Unified[geo.wgOfElement(g)/unifiedShare(geo.totalWGs(), len(pl.Unified))]
+		}
+		if pl.HostSplit {
+			gpus := pl.splitGPUs()
+			return gpus[geo.hostSplitPartOfElement(geo.hostSplit(len(gpus)), g)]
+		}
+		return pl.Sites[st.Site%len(pl.Sites)]
+	}
 	if len(pl.Unified) == 0 {
 		return pl.Sites[st.Site%len(pl.Sites)]
 	}
@@ -1005,12 +1102,16 @@ func runHistory(c *vlib.Check) {
 		c.Inconclusive("harness self-check: " + err.Error())
 		return
 	}
+	if err := checkGeomKernel(); err != nil {
+		c.Inconclusive("harness self-check: " + err.Error())
+		return
+	}
 	scratch, cleanup := vlib.Scratch("c18hist")
 	defer cleanup()
 	base := c.Rand("e2e-history")
 	var progs []histProgram
 	progs = append(progs, canonicalHistPrograms()...)
-	nEmu, nTim, nMagic := c.N(10, 120), c.N(5, 30), c.N(3, 30)
+	nEmu, nTim, nMagic := c.N(10, 120), c.N(3, 30), c.N(3, 30)
 	for i := 0; i < nTim; i++ {
 		progs = append(progs, genHistProgram(base.ForkN("timing", i), fmt.Sprintf("timing-%d", i), true))
 	}
@@ -1023,6 +1124,9 @@ func runHistory(c *vlib.Check) {
 	var jobs []*histJob
 	for _, pg := range progs {
 		for _, pl := range histPlacements(pg.Timing, c.Thorough()) {
+			if pg.Timing && !pg.Magic && !c.Thorough() && pl.Class == "local-buffers" && !strings.HasPrefix(pg.ID, "canon") {
+				continue // quick tier: the all-local control placement runs the canonical timing programs only
+			}
 			jobs = append(jobs, &histJob{prog: pg, pl: pl})
 		}
 	}
@@ -1221,6 +1325,31 @@ func runHistory(c *vlib.Check) {
 				if j.pl.Name != "1gpu" && kernels >= 2 && reuploads >= 1 && remote > 0 {
 					c.Nontrivial("e2e-history/" + pg.ID + "/" + mode + "/" + j.pl.Name)
 					c.Count("history_multi_gpu_histories_with_remote_reads", 1)
+				}
+				for _, st := range pg.Steps {
+					if st.Kind != "geom" || j.pl.Name == "1gpu" {
+						continue
+					}
+					c.Count(fmt.Sprintf("geom_launches_%dd", st.Geo.dims()), 1)
+					if st.Geo.partial() {
+						c.Count("geom_launches_with_partial_work_groups", 1)
+					}
+					if m := len(j.pl.Unified); m > 0 {
+						rowsLt, wraps, idle := st.Geo.unifiedFacts(m)
+						c.Count("geom_unified_launches|"+mode, 1)
+						c.Distinct("geom_unified_members", fmt.Sprint(m))
+						if rowsLt {
+							c.Count("geom_unified_launches_with_fewer_wg_rows_than_members|"+mode, 1)
+						}
+						if wraps {
+							c.Count("geom_unified_launches_with_a_share_wrapping_a_row_end|"+mode, 1)
+						}
+						if idle {
+							c.Count("geom_unified_launches_with_an_idle_member", 1)
+						}
+					} else if j.pl.HostSplit {
+						c.Count("geom_host_split_launches|"+mode, int64(len(st.Geo.hostSplit(len(j.pl.splitGPUs())))))
+					}
 				}
 				if pg.Magic && j.pl.Name != "1gpu" {
 					c.Count("history_magic_copy_only_runs", 1)
